@@ -253,6 +253,10 @@ func isNativeStatic(name string) bool {
 		return true
 	}
 	switch name {
+	case "(github.com/cosmos/cosmos-sdk/x/params/types.Subspace).Get":
+		return true
+	}
+	switch name {
 	case "github.com/cosmos/cosmos-sdk/types.KVStorePrefixIterator",
 		"(encoding/binary.bigEndian).PutUint64", "(encoding/binary.bigEndian).PutUint16",
 		"(encoding/binary.bigEndian).Uint64", "(encoding/binary.bigEndian).Uint16":
@@ -342,6 +346,7 @@ func (bs *blockState) call(ins ssa.Instruction, cc *ssa.CallCommon) Val {
 	}
 	name := fn.String()
 	if isNativeStatic(name) {
+		bs.curCall = cc
 		return bs.native(name, args, resType, pos)
 	}
 	forceInline := fr.contract != nil && fr.contract.Inline[fn.Name()]
@@ -879,6 +884,39 @@ func (bs *blockState) native(name string, args []Val, resType types.Type, pos to
 		c := ex.newCell("itpos", "Int")
 		bs.st.cells[c] = intLit(0)
 		return &IterVal{snap: bs.st.glob["raw"], pfx: ex.define("pfx", Term{"(pfxOf " + pfxBytes.S + ")", "Prefix"}), pos: c}
+	case "(github.com/cosmos/cosmos-sdk/x/params/types.Subspace).Get":
+		// Subspace.Get(ctx, key, ptr): the parameter registered under key. The key must be one of the package-level key variables;
+		// which Params field it stands for is read from (*Params).ParamSetPairs (scanParamPairs), not from its name.
+		ex.trusted["params subspace: Get(ctx, key, ptr) stores the value of the field that (*Params).ParamSetPairs registers under key (wiring read from the syntax each run); the parameters are fixed along a history and satisfy Params.Validate (A6)"] = true
+		field := ""
+		if cc := bs.curCall; cc != nil && len(cc.Args) == 4 {
+			if u, ok := cc.Args[2].(*ssa.UnOp); ok {
+				if g, ok := u.X.(*ssa.Global); ok {
+					field = ex.P.paramKeys[g.Pkg.Pkg.Path()+"."+g.Name()]
+				}
+			}
+		}
+		var ptr *Ptr
+		if bx, ok := args[3].(*Boxed); ok {
+			ptr, _ = bx.val.(*Ptr)
+		}
+		if field == "" || ptr == nil || ptr.cell == nil {
+			ex.unsup(pos, "Subspace.Get with a key that is not a registered parameter key variable, or into an unmodelled target")
+			return &Tuple{}
+		}
+		si := ex.P.sig.Structs["Params"]
+		for k, f := range si.Fields {
+			if f.Name == field {
+				if f.Sort != ptr.cell.sort {
+					ex.unsup(pos, "Subspace.Get: parameter %s has sort %s, the target %s", field, f.Sort, ptr.cell.sort)
+					return &Tuple{}
+				}
+				bs.store(ptr, Term{selOf(si, k, "params"), f.Sort}, pos)
+				return &Tuple{}
+			}
+		}
+		ex.unsup(pos, "Subspace.Get: no field %s in Params", field)
+		return &Tuple{}
 	case "(encoding/binary.bigEndian).PutUint64", "(encoding/binary.bigEndian).PutUint16":
 		n, enc := 8, "be64"
 		if strings.HasSuffix(name, "16") {
